@@ -26,6 +26,7 @@ type mFunc struct {
 	sig     int
 	id      int64
 	ops     []Op
+	tail    *Op
 }
 
 // mRef is a non-null function reference. imp records that it was created from an index that
@@ -62,6 +63,7 @@ func (t *mTable) size() int {
 }
 
 type mMem struct {
+	shared bool
 	effMax uint32
 	pages  uint32
 	b      map[uint32]byte
@@ -93,6 +95,9 @@ type model struct {
 	failAfter  bool
 	sharedKind [4]bool
 	lookupImp  int
+	depth      int
+	entry      *mInst // instance entered through the API by the step being evaluated
+	deepTail   int
 	reexpUse   int
 
 	allowExcluded bool
@@ -224,6 +229,9 @@ func (m *model) matchImport(im ImportSpec) (ex extern, spec, wz bool, why string
 		if m.effMax(im.Max) < mm.effMax {
 			return ex, false, false, fmt.Sprintf("memory %s.%s has max %d, import declares max %d (limit %d)", im.Mod, im.Name, mm.effMax, im.Max, m.limit)
 		}
+		if (im.Shared && im.Max >= 0) != mm.shared {
+			return ex, false, false, fmt.Sprintf("memory %s.%s is shared=%v, import declares shared=%v", im.Mod, im.Name, mm.shared, im.Shared)
+		}
 		return ex, true, true, ""
 	}
 }
@@ -290,7 +298,7 @@ func (m *model) plan(spec *ModSpec, name string) *plan {
 		return p
 	}
 	for i, f := range spec.Funcs {
-		in.funcs = append(in.funcs, &mFunc{def: in, modName: spec.Name, idx: in.v.nIF + i, sig: f.Sig, id: f.ID, ops: f.Ops})
+		in.funcs = append(in.funcs, &mFunc{def: in, modName: spec.Name, idx: in.v.nIF + i, sig: f.Sig, id: f.ID, ops: f.Ops, tail: f.Tail})
 	}
 	for i, f := range in.funcs {
 		in.refs = append(in.refs, &mRef{f: f, imp: i < in.v.nIF})
@@ -305,7 +313,7 @@ func (m *model) plan(spec *ModSpec, name string) *plan {
 		in.tables = append(in.tables, mt)
 	}
 	if spec.Mem != nil {
-		in.mem = &mMem{effMax: m.effMax(spec.Mem.Max), pages: spec.Mem.Min, b: map[uint32]byte{}}
+		in.mem = &mMem{shared: spec.Mem.Shared && spec.Mem.Max >= 0, effMax: m.effMax(spec.Mem.Max), pages: spec.Mem.Min, b: map[uint32]byte{}}
 	}
 	for _, g := range spec.Globals {
 		mg := &mGlobal{vt: g.VT, mut: g.Mut}
@@ -395,6 +403,7 @@ func (m *model) reject() {
 // live on in shared tables and operate on its (otherwise unreachable) objects.
 func (m *model) run(p *plan) string {
 	in := p.inst
+	m.entry = in
 	who := in.name
 	fail := func(stage string) string {
 		m.reject()
@@ -503,8 +512,28 @@ func (m *model) runOps(in *mInst, ops []Op) string {
 }
 
 func (m *model) callFunc(f *mFunc) ([]uint64, string) {
+	m.depth++
+	defer func() { m.depth-- }()
+	if m.depth > 200 { // impossible by construction (see FuncSpec); protects the harness from a damaged replay file
+		return nil, "call chain too deep"
+	}
 	if tr := m.runOps(f.def, f.ops); tr != "" {
 		return nil, tr
+	}
+	if tl := f.tail; tl != nil {
+		in := f.def
+		if tl.K == "rcall" {
+			return m.callFunc(in.funcs[tl.A])
+		}
+		t := in.tables[tl.A]
+		if uint64(uint32(tl.B)) >= uint64(len(t.fn)) {
+			return nil, trapTable
+		}
+		m.read(in.name, t.lastW)
+		if in != m.entry && t.fn[uint32(tl.B)] != nil {
+			m.deepTail++ // a tail call issued by a function of another instance than the one entered
+		}
+		return m.callRef(t.fn[uint32(tl.B)], int(tl.C))
 	}
 	return idResults(f.sig, f.id), ""
 }
@@ -607,6 +636,7 @@ func (m *model) eval(s Step) mres {
 		return mres{skip: true}
 	}
 	who := in.name
+	m.entry = in
 	a := s.Args
 	acc := s.Acc
 	needG := (strings.HasPrefix(acc, "g") && acc != "gxcall") || acc == "hgget" || acc == "higet" || acc == "hgset"
